@@ -835,7 +835,9 @@ def run(tier, replay=None):
     if nt < floor:
         raise vlib.ToolError(f"vacuity guard: only {nt} non-trivial edges (< {floor})")
     ck.assumptions += ["Array.prototype / Object.prototype carry no index properties (default realm)",
-                       "the storage form predicted by ArrayStorage.tla is not observed in the engine (no hook yet); the value "
-                       "mixes force every form",
+                       ("the storage form predicted by ArrayStorage.tla was compared with verif::array_storage_kind after every step"
+                        if stats.get("hook") else
+                        "the storage form predicted by ArrayStorage.tla was not observed (engine built without the "
+                        "array_storage_kind hook); the value mixes force every form"),
                        "indices 0..3 and 7, values {0,1,2,10,1.5,-0,NaN,'a','g',object,undefined}; lengths < 2^31"]
     return ck.finish()
